@@ -97,12 +97,14 @@ def r3_error_condition(a, tier):
     from ..modelinterp import Hook, ModelInterp, Stub
     for marked in (False, True):
         for allowed in (False, True):
-            rules = [Obj(name='a', is_lrec=marked)]
+            # two rules, the second one not reachable from the first: the analysis must still see both (parse(start=...) can enter anywhere)
+            rules = [Stub('tatsu.peg.base.Rule', name='a', is_lrec=False, _used_rule_names=Hook(lambda: set()), exp=None),
+                     Stub('tatsu.peg.base.Rule', name='b', is_lrec=marked, _used_rule_names=Hook(lambda: {'b'}), exp=None)]
             seen = []
 
             def analysis(rs, seen=seen, marked=marked):
                 seen.append(rs)
-                return [r for r in rs if marked]
+                return [r for r in rs if marked and r._attrs['name'] == 'b']
             me = Stub('tatsu.peg.base.Grammar', rules=rules, config=Obj(left_recursion=allowed))
             it = ModelInterp(a, {'mark_left_recursion': Hook(analysis)})
             raised = None
@@ -113,13 +115,13 @@ def r3_error_condition(a, tier):
             except Unsupported as e:
                 raise AnalysisError(f'cannot interpret {fn.qualname}: {e}') from e
             want = 'GrammarError' if (marked and not allowed) else None
-            ok = raised == want and len(seen) == 1 and seen[0] is rules
+            ok = raised == want and len(seen) == 1 and [r._attrs['name'] for r in seen[0]] == ['a', 'b']
             rep.add({'fn': fn.qualname, 'left_recursive_rules_found': marked, 'config.left_recursion': allowed, 'raises': raised,
-                     'analysis_ran_over_self.rules': len(seen) == 1 and seen[0] is rules, 'ok': ok})
+                     'analysis_ran_over_all_rules': len(seen) == 1 and [r._attrs['name'] for r in seen[0]] == ['a', 'b'], 'ok': ok})
             if not ok:
                 rep.fail(fn.qualname, f'error-condition:{marked}:{allowed}', f'with left-recursive rules {"found" if marked else "absent"} and '
                          f'config.left_recursion={allowed}, _mark_left_recursion raises {raised} (analysis run over self.rules: '
-                         f'{len(seen) == 1 and seen[0] is rules}); required: {want or "no error"} - GrammarError exactly when rules '
+                         f'{[r._attrs["name"] for r in seen[0]] if seen else None}, expected every rule a, b - also the ones not reachable from the first rule); required: {want or "no error"} - GrammarError exactly when rules '
                          f'were marked and left recursion is disabled', fn.loc)
     rc = a.p.func('tatsu.contexts.engine.ParserEngine.recursive_call')
     ok = False
